@@ -96,8 +96,13 @@ pub fn judge_with<'a>(sel: &'a Selector<'a>, path: &JPath, doc: &RVal, bytes: &'
         (EvalResult::Unsupported, Ok(())) => {
             // nothing reached the unsupported expression (e.g. a filter over an empty array):
             // the property only demands "an error, never a panic" when the evaluator has to handle it
-            acc.unspecified += 1;
-            acc.outcome("unsupported-never-evaluated")
+            if refmodel::jpath::arith_must_be_evaluated(path, doc) {
+                acc.outcome("unsupported-evaluated-without-error");
+                acc.vio("select:unsupported-expression-evaluated-without-an-error", ctx);
+            } else {
+                acc.unspecified += 1;
+                acc.outcome("unsupported-never-evaluated")
+            }
         }
         (_, Err(e)) => acc.vio("select:error-on-supported-path", || json!({"ctx": ctx(), "err": e})),
         (EvalResult::Predicate(t), Ok(())) => {
@@ -156,8 +161,25 @@ pub struct PathSet {
     pub docs: Arc<Vec<(RVal, Vec<u8>)>>,
 }
 
+/// Each model path is paired with the jsonb path built directly from it; when jsonb's own parser
+/// reads the path's text as a DIFFERENT structure (number representation of a literal, a name read
+/// differently, ...), that parsed path is evaluated too: the property is about paths as the parser
+/// delivers them.
 pub fn mk(paths: Vec<JPath>) -> Arc<Vec<(JPath, jsonb::jsonpath::JsonPath<'static>)>> {
-    Arc::new(paths.into_iter().map(|p| { let i = to_impl_path(&p); (p, i) }).collect())
+    let mut out = Vec::with_capacity(paths.len());
+    for p in paths {
+        let i = to_impl_path(&p);
+        let text: &'static str = Box::leak(print_path(&p).into_boxed_str());
+        let parsed = guard(|| jsonb::jsonpath::parse_json_path(text.as_bytes()).ok()).ok().flatten();
+        if let Some(q) = parsed {
+            // (structural comparison: jsonb's own `==` on paths compares number literals by value)
+            if format!("{:?}", q) != format!("{:?}", i) {
+                out.push((p.clone(), q));
+            }
+        }
+        out.push((p, i));
+    }
+    Arc::new(out)
 }
 
 pub fn path_sets(tier: Tier) -> Vec<PathSet> {
@@ -171,7 +193,7 @@ pub fn path_sets(tier: Tier) -> Vec<PathSet> {
         PathSet { name: "2-steps-one-filter x subset".into(), paths: mk(jgen::filter_paths(2, &jgen::filters_full())), docs: sub.clone() },
         PathSet { name: "3-steps-one-filter(reduced) x small-subset".into(), paths: mk(jgen::filter_paths(3, &jgen::filters_reduced())), docs: small.clone() },
         PathSet { name: "predicates x all-docs".into(), paths: mk(jgen::predicate_paths()), docs: docs.clone() },
-        PathSet { name: "arithmetic x subset".into(), paths: mk(jgen::arithmetic_paths()), docs: sub.clone() },
+        PathSet { name: "arithmetic (top level, nested under exists, after a connective, in a second filter) x all-docs".into(), paths: mk(jgen::arithmetic_paths()), docs: docs.clone() },
     ];
     // deeper and wider documents so that 3- and 4-step paths actually reach something
     let deep: Arc<Vec<(RVal, Vec<u8>)>> = Arc::new(
@@ -202,6 +224,30 @@ pub fn path_sets(tier: Tier) -> Vec<PathSet> {
         }
         kp.push(JPath(vec![Step::Root, Step::ObjField("".into())]));
         v.push(PathSet { name: "member steps over the key-order universe".into(), paths: mk(kp), docs: kdocs });
+    }
+    {
+        // number literals of every representation and magnitude against number documents
+        let nv: Vec<RVal> = crate::univ::num_variants(false);
+        let mut nd: Vec<RVal> = vec![RVal::Arr(nv.clone()), RVal::Arr(vec![])];
+        for n in &nv {
+            nd.push(n.clone());
+            nd.push(RVal::Arr(vec![n.clone()]));
+            nd.push(RVal::obj(vec![("a", n.clone())]));
+        }
+        let ndocs: Arc<Vec<(RVal, Vec<u8>)>> = Arc::new(nd.into_iter().map(|x| { let b = enc(&x); (x, b) }).collect());
+        let mut np = vec![];
+        let cur = Expr::Paths(vec![Step::Current]);
+        let root_a = Expr::Paths(vec![Step::Root, Step::Dot("a".into())]);
+        for n in &nv {
+            let RVal::Num(n) = n else { continue };
+            let lit = Expr::Lit(Lit::Num(*n));
+            for c in jgen::CMPS {
+                np.push(JPath(vec![Step::Root, Step::BracketWild, Step::Filter(Box::new(Expr::Cmp(c, Box::new(cur.clone()), Box::new(lit.clone()))))]));
+                np.push(JPath(vec![Step::Root, Step::BracketWild, Step::Filter(Box::new(Expr::Cmp(c, Box::new(lit.clone()), Box::new(cur.clone()))))]));
+                np.push(JPath(vec![Step::Predicate(Box::new(Expr::Cmp(c, Box::new(root_a.clone()), Box::new(lit.clone()))))]));
+            }
+        }
+        v.push(PathSet { name: "number literals (every representation, 2^53 / 2^63 / 2^64 neighbours, -0.0) x number documents".into(), paths: mk(np), docs: ndocs });
     }
     if tier.thorough() {
         v.push(PathSet { name: "plain-4-steps x deep/wide docs".into(), paths: mk(jgen::plain_paths(4).into_iter().filter(|p| p.0.len() == 5).collect()), docs: deep.clone() });
